@@ -60,8 +60,15 @@ def run_groups(V, groups, wd, per_batch=8, variant="rel", timeout=300, workers=1
             rp = kv.save_replay(V.prop, "r%d" % bi, [os.path.join(bwd, "t.kv"), os.path.join(bwd, "t.ndjson")])
             V.violation("execution not explained by the specification (harness rc=%s accepted=%s) %s" % (rc, res.accepted, err[-300:].replace("\n", " ")),
                         rp, dict(kind="unexplained", rc=rc))
+        skipped = set()
+        for line in res.prints:
+            if line.startswith('<<"KVSKIP"'):
+                parts = line.split('"')
+                if len(parts) > 3:
+                    skipped.add(parts[3])
+        V.extra["premise_not_met_skipped"] = V.extra.get("premise_not_met_skipped", 0) + len(skipped)
         for g in batches[bi]:
-            V.case(g.get("key", g["gid"]), g.get("nontrivial", True))
+            V.case(g.get("key", g["gid"]), g.get("nontrivial", True) and g["gid"] not in skipped)
             if g["gid"] not in failed_g and res.accepted:
                 V.traces += len(g["members"])
     return V
